@@ -115,6 +115,20 @@ func H09_mode() {
 	vAssert(lerr == nil, "C09.list-ok")
 	signers, serr := s.Signers()
 	vAssert(serr == nil, "C09.signers-ok")
+	// a second listing shows the same identities (nothing becomes hidden by having been listed)
+	listed2, lerr2 := s.List()
+	vAssert(lerr2 == nil && len(listed2) == len(listed), "C09.repeated-listing-is-stable")
+	for _, k := range listed {
+		found := false
+		for _, k2 := range listed2 {
+			if string(k.Blob) == string(k2.Blob) {
+				found = true
+			}
+		}
+		vAssert(found, "C09.repeated-listing-is-stable")
+	}
+	signers2, serr2 := s.Signers()
+	vAssert(serr2 == nil && len(signers2) == len(signers), "C09.repeated-signers-listing-is-stable")
 	inList := func(blob []byte) bool {
 		for _, k := range listed {
 			if string(k.Blob) == string(blob) {
